@@ -34,6 +34,7 @@ import (
 	"math/bits"
 	"math/rand"
 	"os"
+	"strings"
 	"testing"
 	"time"
 )
@@ -96,7 +97,7 @@ func (e *c01Env) roundTrip(sp *refBuildSpec, secondRoot int, caseNo int) {
 		return []*Cell{cs[0]}
 	}
 	roots := pick(cells)
-	rh := newRefHasher(false)
+	rh := newRefHasher(true)
 	want := make([][32]byte, len(roots))
 	for i, r := range roots {
 		if want[i], err = rh.top(r); err != nil {
@@ -116,12 +117,14 @@ func (e *c01Env) roundTrip(sp *refBuildSpec, secondRoot int, caseNo int) {
 	for opt := 0; opt < 8; opt++ {
 		b, err := c01Serialize(roots, opt, caseNo+opt)
 		if err != nil {
-			e.rep.errorf("%s opt=%d: serialize: %v; input {%s}", what(), opt, err, refDump(roots...))
+			e.rep.errorf("%s opt=%d: serialize: %v; input {%s}", what(), opt, err, refDumpLazy(roots...))
 			return
 		}
 		out[opt] = b
-		if s := refCheckContainer(b, opt&1 != 0, opt&2 != 0, opt&4 != 0, nDistinct, len(roots)); s != "" {
-			e.rep.errorf("%s opt=%d (idx=%v crc=%v cacheBits=%v): container layout: %s; bytes %x; input {%s}", what(), opt, opt&1 != 0, opt&2 != 0, opt&4 != 0, s, b, refDump(roots...))
+		if s := refCheckContainer(b, opt&1 != 0, opt&2 != 0, opt&4 != 0, nDistinct, len(roots)); strings.HasPrefix(s, "index entry") && opt&4 != 0 {
+			e.rep.errorf("%s opt=%d (idx=%v crc=%v cacheBits=%v): index table: %s; bytes %x; input {%s}", what(), opt, opt&1 != 0, opt&2 != 0, opt&4 != 0, s, b, refDumpLazy(roots...))
+		} else if s != "" {
+			e.rep.errorf("%s opt=%d (idx=%v crc=%v cacheBits=%v): container layout: %s; bytes %x; input {%s}", what(), opt, opt&1 != 0, opt&2 != 0, opt&4 != 0, s, b, refDumpLazy(roots...))
 		}
 		if h, err := refParseBocHeader(b); err == nil {
 			if opt == 0 {
@@ -135,10 +138,10 @@ func (e *c01Env) roundTrip(sp *refBuildSpec, secondRoot int, caseNo int) {
 			e.rep.errorf("%s opt=%d: DeserializeBoc(%x) = %d roots, %v", what(), opt, b, len(parsed), err)
 			continue
 		}
-		prh := newRefHasher(false)
+		prh := newRefHasher(true)
 		for i := range roots {
 			if s := refSameStructure(roots[i], parsed[i]); s != "" {
-				e.rep.errorf("%s opt=%d root %d: parsed structure differs: %s; bytes %x; input {%s}", what(), opt, i, s, b, refDump(roots...))
+				e.rep.errorf("%s opt=%d root %d: parsed structure differs: %s; bytes %x; input {%s}", what(), opt, i, s, b, refDumpLazy(roots...))
 			}
 			if h, err := prh.top(parsed[i]); err != nil || h != want[i] {
 				e.rep.errorf("%s opt=%d root %d: reference hash of the parsed root %x (%v), of the input %x; bytes %x", what(), opt, i, h, err, want[i], b)
@@ -172,7 +175,7 @@ func (e *c01Env) roundTrip(sp *refBuildSpec, secondRoot int, caseNo int) {
 		b, err := c01Serialize(r2, opt, caseNo+how)
 		if err != nil || !bytes.Equal(b, out[opt]) {
 			e.rep.errorf("%s opt=%d: structurally equal input built through api %d (unshare=%v) serialises to %x (%v), the WriteBit-built one to %x; input {%s}",
-				what(), opt, how, unshare, b, err, out[opt], refDump(r2...))
+				what(), opt, how, unshare, b, err, out[opt], refDumpLazy(r2...))
 		}
 	}
 	variant(1+caseNo%(refHowCount-1), false)
@@ -315,7 +318,9 @@ func (e *c01Env) bigCase(name string, root *Cell, wantCells int, wantSize int, o
 		if len(show) > 96 {
 			show = show[:96]
 		}
-		if s := refCheckContainer(b, opt&1 != 0, opt&2 != 0, opt&4 != 0, wantCells, 1); s != "" {
+		if s := refCheckContainer(b, opt&1 != 0, opt&2 != 0, opt&4 != 0, wantCells, 1); strings.HasPrefix(s, "index entry") && opt&4 != 0 {
+			e.rep.errorf("B: %s opt=%d: index table: %s (first bytes %x)", name, opt, s, show)
+		} else if s != "" {
 			e.rep.errorf("B: %s opt=%d: container layout: %s (first bytes %x)", name, opt, s, show)
 		}
 		if h, err := refParseBocHeader(b); err == nil && h.size != wantSize {
@@ -490,7 +495,7 @@ func c01ForeignSerialize(rh *refHasher, roots []*Cell, f c01Foreign) ([]byte, er
 			data = append(data, v.hash[:]...)
 			data = append(data, byte(v.depth>>8), byte(v.depth))
 		}
-		data = append(data, refPad(refCellBits(c))...)
+		data = append(data, refData(c)...)
 		for _, k := range kids {
 			kr, err := rep(k)
 			if err != nil {
@@ -585,13 +590,17 @@ func (e *c01Env) foreignCase(what func() string, roots []*Cell, f c01Foreign) {
 	}
 	e.distinct[string(b)] = true
 	parsed, err := DeserializeBoc(b)
+	if (err != nil || len(parsed) != len(roots)) && f.magic != 0 {
+		e.rep.errorf("C: index-only magic: %s [%v]: DeserializeBoc(%x) = %d roots, %v; input {%s}", what(), f, b, len(parsed), err, refDumpLazy(roots...))
+		return
+	}
 	if err != nil || len(parsed) != len(roots) {
-		e.rep.errorf("C: %s [%v]: DeserializeBoc(%x) = %d roots, %v; input {%s}", what(), f, b, len(parsed), err, refDump(roots...))
+		e.rep.errorf("C: %s [%v]: DeserializeBoc(%x) = %d roots, %v; input {%s}", what(), f, b, len(parsed), err, refDumpLazy(roots...))
 		return
 	}
 	for i := range roots {
 		if s := refSameStructure(roots[i], parsed[i]); s != "" {
-			e.rep.errorf("C: %s [%v] root %d: parsed structure differs: %s; bytes %x; input {%s}", what(), f, i, s, b, refDump(roots...))
+			e.rep.errorf("C: %s [%v] root %d: parsed structure differs: %s; bytes %x; input {%s}", what(), f, i, s, b, refDumpLazy(roots...))
 			continue
 		}
 		w, _ := rh.top(roots[i])
@@ -722,7 +731,7 @@ func (e *c01Env) partD() {
 	if e.thorough {
 		deadline = time.Now().Add(6 * time.Minute)
 	}
-	n := 0
+	n, indexed := 0, 0
 	for fi, nb := range refTestdataBocs() {
 		if time.Now().After(deadline) {
 			e.t.Logf("D: time budget used up, stopping before %s", nb.name)
@@ -745,6 +754,23 @@ func (e *c01Env) partD() {
 				if want[i], err = rh.top(r); err != nil {
 					e.rep.errorf("D: %s: reference cannot hash root %d: %v", nb.name, i, err)
 					return
+				}
+			}
+			// oracle sanity: containers written by the reference serialiser carry an index that the reader of
+			// refhash_helper_test.go interprets as "end offset of cell i" (doubled, plus cache bit, when has_cache_bits)
+			if h, err := refParseBocHeader(nb.data); err == nil && h.hasIdx {
+				if raw, err := h.rawCells(); err == nil {
+					for i, rc := range raw {
+						v := h.index[i]
+						if h.hasCache {
+							v >>= 1
+						}
+						if v != uint64(rc.end) {
+							e.rep.errorf("D: ORACLE sanity: %s: stored index entry %d is %#x, cell ends at %d", nb.name, i, h.index[i], rc.end)
+							break
+						}
+					}
+					indexed++
 				}
 			}
 			// the library's parse against an independent parse of the same bytes
@@ -776,7 +802,9 @@ func (e *c01Env) partD() {
 					e.rep.errorf("D: %s opt=%d: serialize: %v", nb.name, opt, err)
 					continue
 				}
-				if s := refCheckContainer(b, opt&1 != 0, opt&2 != 0, opt&4 != 0, nDistinct, len(roots)); s != "" {
+				if s := refCheckContainer(b, opt&1 != 0, opt&2 != 0, opt&4 != 0, nDistinct, len(roots)); strings.HasPrefix(s, "index entry") && opt&4 != 0 {
+					e.rep.errorf("D: %s opt=%d (idx=%v crc=%v cacheBits=%v): index table: %s", nb.name, opt, opt&1 != 0, opt&2 != 0, opt&4 != 0, s)
+				} else if s != "" {
 					e.rep.errorf("D: %s opt=%d (idx=%v crc=%v cacheBits=%v): container layout: %s", nb.name, opt, opt&1 != 0, opt&2 != 0, opt&4 != 0, s)
 				}
 				parsed, err := DeserializeBoc(b)
@@ -796,12 +824,12 @@ func (e *c01Env) partD() {
 	if n == 0 {
 		e.rep.errorf("D: no testdata bag of cells could be parsed")
 	}
-	e.t.Logf("D: %d testdata containers", n)
+	e.t.Logf("D: %d testdata containers, %d of them carry an index that agrees with the independent reader", n, indexed)
 }
 
 func TestVerifStandin_C01_RoundTrip(t *testing.T) {
 	e := &c01Env{
-		t: t, rep: &refReporter{t: t, max: 14}, distinct: map[string]bool{},
+		t: t, rep: &refReporter{t: t, max: 3}, distinct: map[string]bool{},
 		thorough: os.Getenv("VERIF_TIER") == "thorough",
 		rng:      rand.New(rand.NewSource(refSeed())),
 	}
